@@ -223,4 +223,32 @@ def dro_call():
                     ns, res, lambda s: want_r(ns, s, given), len(ns["x"].event_adapt)))],
                 mode="D", label=f"assigned={given},labels={'int' if labels is None else 'str'}", bounded=True)
             out += obs
+        # affinely adaptive, event-wise decisions evaluated at realisations: one common realisation, and one per scenario
+        for sw in (False, True):
+            def setup_s(c, labels=labels, sw=sw):
+                ns = _build(c, "adapt([1,2])", labels, affine=True)
+                ns["ZV"] = arr([c.fresh_real(f"zv{i}_") for i in range(6)]).reshape((3, 2))
+                return ns
+
+            def want_s(ns, s, var, sw=sw):
+                zv = ns["ZV"][s] if sw else ns["ZV"][0]
+                base = np.asarray(_rule_value(ns, s, var), dtype=object).reshape(-1)
+                C = np.asarray(_rule_coeff(ns, s, var, ns["z"]), dtype=object).reshape((var.size, 2))
+                out = []
+                for a in range(var.size):
+                    acc = base[a]
+                    for b in range(2):
+                        cc = C[a, b]
+                        if not (isinstance(cc, float) and math.isnan(cc)):
+                            acc = acc + cc * zv[b]
+                    out.append(acc)
+                return np.array(out, dtype=object).reshape(var.shape)
+            for vname in ("pad", "x"):
+                obs, _ = check_function(
+                    "rsome.lp:DecVar.__call__", setup_s,
+                    lambda ns, vname=vname, sw=sw: ns[vname](ns["z"].assign(ns["ZV"] if sw else ns["ZV"][0], sw=sw)),
+                    [post("rule-evaluated-at-each-scenario's-own-realisation" if sw else "rule-evaluated-at-the-common-realisation",
+                          lambda ns, res, vname=vname: _series_matches(ns, res, lambda s: want_s(ns, s, ns[vname]), len(ns[vname].event_adapt) if not sw else 3))],
+                    mode="D", label=f"{vname},scenario-wise={sw},labels={'int' if labels is None else 'str'}", bounded=True)
+                out += obs
     return out
